@@ -14,7 +14,9 @@ from vlib.cosched.sched import Abort
 
 SOURCES = ["queued", "adopt:outside", "adopt:threading", "adopt:other", "service",
            "execute:outside", "execute:other", "execute:threading", "execute:early",
-           "adopt:own-loop", "adopt:in-section", "execute:foreign-trio"]
+           "adopt:own-loop", "adopt:in-section", "execute:foreign-trio",
+           # plain callables that do a first part synchronously and return the awaitable
+           "execute:plain", "adopt:plain"]
 
 
 class Scenario:
@@ -104,6 +106,9 @@ class Scenario:
                     "steps": [("section", params.get("sections", 3))]}
             self.members.append(desc)
             kind, _, where = source.partition(":")
+            if where == "plain":
+                desc["plain"] = True
+                where = "threading"
             if kind == "queued":
                 kit.submit(desc)
             elif kind == "service":
@@ -179,7 +184,7 @@ class Scenario:
                     "%s:overlap" % data["flavour"],
                     "two %s payloads were inside their synchronous sections at the same time "
                     "(%s, counter %r)" % (data["flavour"], data["id"], data["counter"])))
-            if event in ("start", "section") and data["id"].startswith("m"):
+            if event in ("start", "section", "plain-call") and data["id"].startswith("m"):
                 contexts.add((who, data["loop"], data["token"]))
                 if event == "section":
                     sections[data["id"]] = sections.get(data["id"], 0) + 1
